@@ -31,6 +31,7 @@
         whose failure the trace shows (a check group failed = one of its actions' last invocation of
         its last run returned an error; a block failed = fin shows it Failed); it is FRUnknown exactly
         when the plan is Completed; a plan bypassed as a whole has no failing stage         (reason)
+     17 each of the plan's check groups is Failed in fin exactly when the trace shows it failing (truthful)
      14 fin describes every object of the plan
      15 the status and reason of the engine's last plan write are those of fin (what Wait returns is what
         the engine decided)                                      16 ... and that reason names the failing stage
@@ -176,6 +177,10 @@ Definition shown_reason (sh : shape) (m : tmap) (fin : image) : reason :=
   else if grp_failed sh m GPost then FRPostCheck
   else if grp_failed sh m GDeferred then FRDeferredCheck
   else FRUnknown.
+(* 17: a plan-level check group is Failed in fin exactly when the trace shows it failing *)
+Definition group_truthful (sh : shape) (m : tmap) (fin : image) : bool :=
+  forallb (fun g => negb (grp_present sh g) || Bool.eqb (is_st fin (OChecks SPlan g) Failed) (grp_failed sh m g)) all_grps.
+
 Definition reason_ok (sh : shape) (m : tmap) (fin : image) : bool :=
   reason_eqb (im_reason fin) (shown_reason sh m fin)
   && Bool.eqb (is_st fin OPlan Completed) (reason_eqb (im_reason fin) FRUnknown).
@@ -214,7 +219,8 @@ Definition release_codes (sh : shape) (ms : mstate) (fin : image) : list nat :=
   ++ when (negb (plan_consistent sh fin)) 6
   ++ when (negb (reason_ok sh m fin)) 11
   ++ when (negb (written_ok (m_pw ms) fin)) 15
-  ++ when (negb (written_reason_ok sh m (m_pw ms) fin)) 16.
+  ++ when (negb (written_reason_ok sh m (m_pw ms) fin)) 16
+  ++ when (negb (group_truthful sh m fin)) 17.
 
 Fixpoint after_codes (sh : shape) (fin : image) (m : tmap) (tr : list event) : list nat :=
   match tr with
